@@ -257,8 +257,10 @@ def compare(obs, res, strict_order=True):
     it = norm_internal(norm_trace_impl(run['trace']))
     mt = norm_trace_model(res['trace'], names)
     if multi:
-        it = [e if not (e[0] == 'emit' and e[2] == 'pipeline_complete') else e[:4] + ['ANY-OF-ALTS'] for e in it]
-        mt = [e if not (e[0] == 'emit' and e[2] == 'pipeline_complete') else e[:4] + ['ANY-OF-ALTS'] for e in mt]
+        # which of several task errors run() picks is not reproducible (DESIGN 3.2); a BaseException among them is raised through
+        # PipelineChart.run without an on_pipeline_complete, an Exception is reported with one: the event is left out on both sides
+        it = [e for e in it if not (e[0] == 'emit' and e[2] == 'pipeline_complete')]
+        mt = [e for e in mt if not (e[0] == 'emit' and e[2] == 'pipeline_complete')]
     if strict_order:
         if it != mt:
             j = next((i for i, (a, b) in enumerate(zip(it, mt)) if a != b), min(len(it), len(mt)))
